@@ -914,10 +914,10 @@ inline Case gen_history(const Variant& v, bool gated) {
   bool extreme = vg::chance(1, 4);
   static const unsigned sizes[4] = {0, 1, 2, 7};
   uint64_t pos = 0;
-  // one history in 25 runs over a large key universe (60..200 keys): a build-up phase puts 60..min(nkeys,150) distinct keys into
+  // one history in 40 runs over a large key universe (60..200 keys): a build-up phase puts 60..min(nkeys,150) distinct keys into
   // ONE instance (the hash table grows through several rehashes; nothing in this phase removes an entry), then the usual
   // mix - with clear() twice as likely - continues on that state over the whole universe
-  if (vg::chance(1, 25)) {
+  if (vg::chance(1, 40)) {
     nkeys = 60 + vg::below(141);
     unsigned target = 60 + vg::below(std::min<unsigned>(nkeys, 150) - 59);
     unsigned start = vg::below(nkeys), step = vg::pick<unsigned>({1, 211, 223}); // primes > 200: i*step mod nkeys is a permutation
